@@ -69,6 +69,135 @@ def scase_coq(c):
     return "(%d, %d, %s, %s, %s, %s)" % (st["end"], min(st["maxline"], n + 1), sched, zl(st["body"]), blocks, "true" if st["ok"] else "false")
 
 
+def wcase_coq(c):
+    """points-writer case: (body, per row (dropped, error reported, row handed on)). A row handed on without any field is
+    refused further down the write path ("point without fields is unsupported"): dropped with an error, as the model says."""
+    obs = []
+    for o in c["writer"]:
+        row = o["row"]
+        if row is not None and not row["fields"]:
+            obs.append("(true, true, None)")
+        elif o["dropped"] or row is None:
+            obs.append("(true, %s, None)" % ("true" if o["err"] else "false"))
+        else:
+            obs.append("(false, %s, Some %s)" % ("true" if o["err"] else "false", rows_coq([row])[1:-1]))
+    return "(%s, [%s])" % (zl(c["in"]), "; ".join(obs))
+
+
+def canary_of(kind, c):
+    """a corrupted copy of a case: the evaluation must report it (permanent canary, fail closed; the shortest case of the shard is used)"""
+    c = json.loads(json.dumps(c))
+    if kind == "w":
+        c["writer"][0]["err"] = not c["writer"][0]["err"]
+    elif kind == "s":
+        c["stream"]["ok"] = not c["stream"]["ok"]
+    else:
+        c["err"] = not c["err"]
+        if c["err"]:
+            c["rows"] = []
+    return c
+
+
+STATE_NAMES = {"StateInitial": "SInit", "StateIntSign": "SSign", "StateInteger": "SInt", "StatePoint": "SPoint",
+               "StatePointWithoutInt": "SPointNoInt", "StateFraction": "SFrac", "StateExp": "SExp", "StateExpSign": "SExpSign",
+               "StateExpNumber": "SExpNum"}
+REACH = {"SInit": "", "SSign": "+", "SInt": "1", "SPoint": "1.", "SPointNoInt": ".", "SFrac": "1.5", "SExp": "1e", "SExpSign": "1e+", "SExpNum": "1e5"}
+
+
+def source_tables_coq(ck):
+    """Translates, from the working tree, the tables and constants the model copies: the transition table, character classes
+    and accepting states of valid_number.go, influx.Field_Type_*, the length limits of lib/util/util.go and the reserved key
+    of the points writer - into one Coq boolean that compares them with Model.v / ModelWriter.v. Fails closed: anything that
+    cannot be read from the source is reported, never skipped."""
+    def src(rel):
+        return open(os.path.join(ck.repo, rel)).read()
+    errs = []
+    conj = []
+    vn = src("lib/util/lifted/vm/protoparser/influx/valid_number.go")
+    m = re.search(r"const \(\s*CharNumber CharType = iota(.*?)\)", vn, re.S)
+    classes = ["CharNumber"] + (re.findall(r"^\s*(Char\w+)\s*$", m.group(1), re.M) if m else [])
+    if classes != ["CharNumber", "CharExp", "CharPoint", "CharSign", "CharIllegal"]:
+        errs.append("character classes of valid_number.go: %r" % (classes,))
+    chars = {}
+    for body, cls in re.findall(r"case ((?:'.'(?:,\s*)?)+):\s*return (Char\w+)", vn):
+        chars[cls] = [ord(x) for x in re.findall(r"'(.)'", body)]
+    if sorted(chars) != ["CharExp", "CharNumber", "CharPoint", "CharSign"]:
+        errs.append("toCharType of valid_number.go: %r" % (chars,))
+    rows = re.findall(r"transfer\[(State\w+)\]\s*=\s*\[CharIllegal\]State\{([^}]*)\}", vn)
+    if sorted(r[0] for r in rows) != sorted(STATE_NAMES):
+        errs.append("transfer rows of valid_number.go: %r" % ([r[0] for r in rows],))
+    if not errs:
+        allchars = set()
+        for st, targets in rows:
+            ts = [t.strip() for t in targets.split(",")]
+            if len(ts) != 4:
+                errs.append("transfer row %s has %d entries" % (st, len(ts)))
+                continue
+            for cls, t in zip(classes[:4], ts):
+                want = "None" if t == "StateNone" else ("(Some %s)" % STATE_NAMES.get(t, "?" + t))
+                if "?" in want:
+                    errs.append("unknown state %s" % t)
+                for ch in chars[cls]:
+                    allchars.add(ch)
+                    conj.append("nst_opt_eqb (nstep %s %d%%N) %s" % (STATE_NAMES[st], ch, want))
+        others = "[" + "; ".join("%d%%N" % b for b in range(256) if b not in allchars) + "]"
+        for st in STATE_NAMES.values():
+            conj.append("forallb (fun c => nst_opt_eqb (nstep %s c) None) %s" % (st, others))
+        m = re.search(r"return (state == State\w+(?:\s*\|\|\s*state == State\w+)*)\s*\}", vn)
+        acc = set(re.findall(r"state == (State\w+)", m.group(1))) if m else None
+        if not acc:
+            errs.append("accepting states of IsValidNumber")
+        else:
+            for go, coq in STATE_NAMES.items():
+                lit = "(H \"%s\"%%string)" % REACH[coq].encode().hex()
+                conj.append("nst_opt_eqb (nrun SInit %s) (Some %s)" % (lit, coq))
+                conj.append("Bool.eqb (valid_number %s) %s" % (lit, "true" if go in acc else "false"))
+    ps = src("lib/util/lifted/vm/protoparser/influx/parser.go")
+    for name, coq in (("Int", "ty_int"), ("Float", "ty_float"), ("String", "ty_string"), ("Boolean", "ty_bool"), ("Tag", "ty_tag")):
+        m = re.search(r"^\s*Field_Type_%s\s*=\s*(\d+)\s*$" % name, ps, re.M)
+        if not m:
+            errs.append("Field_Type_%s" % name)
+        else:
+            conj.append("(%s =? %s)" % (coq, m.group(1)))
+    ut = src("lib/util/util.go")
+    vals = {}
+    for name in ("MaxMeasurementLengthWithVersion", "MeasurementVersionLength", "MaxTagNameLength", "MaxTagValueLength", "MaxFieldNameLength"):
+        m = re.search(r"^\s*%s\s*=\s*([0-9* ]+?)\s*$" % name, ut, re.M)
+        if not m:
+            errs.append(name)
+        else:
+            v = 1
+            for f in m.group(1).split("*"):
+                v *= int(f)
+            vals[name] = v
+    if not re.search(r"^\s*MaxMeasurementLength\s*=\s*MaxMeasurementLengthWithVersion - MeasurementVersionLength\s*$", ut, re.M):
+        errs.append("MaxMeasurementLength")
+    if len(vals) == 5:
+        conj.append("(Z.of_nat max_name_len =? %d)" % (vals["MaxMeasurementLengthWithVersion"] - vals["MeasurementVersionLength"]))
+        conj.append("(Z.of_nat max_key_len =? %d)" % vals["MaxTagNameLength"])
+        conj.append("(Z.of_nat max_key_len =? %d)" % vals["MaxFieldNameLength"])
+        conj.append("(max_tagval_len =? %d)" % vals["MaxTagValueLength"])
+    pw = src("coordinator/points_writer.go")
+    wh = src("coordinator/write_helper.go")
+    m1 = re.search(r'fields\[i\]\.Key == "(\w+)"', pw)
+    m2 = set(re.findall(r'tag\.Key == "(\w+)"', wh))
+    if not m1 or len(m2) != 1 or m1.group(1) not in m2:
+        errs.append("reserved key of fixFields / updateSchemaCheck")
+    else:
+        conj.append("list_beq time_key (H \"%s\"%%string)" % m1.group(1).encode().hex())
+    for e in errs:
+        ck.broken.append("C06 source tables: cannot read %s from the working tree (the model's copy is unchecked)" % e)
+    if errs:
+        return None
+    return ("From Coq Require Import ZArith NArith List Bool String. From OG Require Import C06.Model C06.ModelWriter C06.Corr.\n"
+            "Import ListNotations. Open Scope Z_scope.\n"
+            "Definition nst_code (s : nst) : Z := match s with SInit => 1 | SSign => 2 | SInt => 3 | SPoint => 4 | SPointNoInt => 5 | SFrac => 6 "
+            "| SExp => 7 | SExpSign => 8 | SExpNum => 9 end.\n"
+            "Definition nst_opt_eqb (a b : option nst) : bool := match a, b with Some x, Some y => nst_code x =? nst_code y | None, None => true | _, _ => false end.\n"
+            "Definition checks : list bool := [\n%s\n].\n"
+            "Definition K := Eval vm_compute in (List.length checks, forallb (fun b => b) checks).\nPrint K.\n" % ";\n".join(conj)), len(conj)
+
+
 HEAD = ("From Coq Require Import ZArith NArith List Bool String. From OG Require Import C06.Model C06.Corr.\n"
         "Import ListNotations. Open Scope Z_scope.\n")
 
@@ -78,22 +207,40 @@ def eval_model(ck, cases, shard=150):
     or None when the evaluation itself failed"""
     files = []
     groups = []          # per file: (kind, [global indices])
-    plain = [i for i, c in enumerate(cases) if not c.get("http")]
+    plain = [i for i, c in enumerate(cases) if not c.get("http") and not c.get("writer")]
+    writer = [i for i, c in enumerate(cases) if c.get("writer") and not c["err"] and len(c["writer"]) > 0]
     http = [i for i, c in enumerate(cases) if c.get("http") and c["http"]["status"] != -1]   # -1: no answer read (transport), counted below
     stream = [i for i, c in enumerate(cases) if c.get("stream")]
     for kind, idxs, typ, fn, conv, sh in (("p", plain, "icase", "codes", case_coq, shard), ("h", http, "hcase", "hcodes", hcase_coq, 12),
-                                          ("s", stream, "scase", "scodes", scase_coq, 40)):
+                                          ("s", stream, "scase", "scodes", scase_coq, 40), ("w", writer, "wcase", "wcodes", wcase_coq, 40)):
         for i in range(0, len(idxs), sh):
             chunk = idxs[i:i + sh]
+            # the last entry of every shard is a corrupted copy of its shortest case: it must come back with a code
+            small = min(chunk, key=lambda j: len(cases[j]["in"]))
+            texts = [conv(cases[j]) for j in chunk] + [conv(canary_of(kind, cases[small]))]
             txt = HEAD + ("Definition cases : list %s := [\n%s\n].\nDefinition M := Eval vm_compute in %s cases.\nPrint M.\n"
-                          % (typ, ";\n".join(conv(cases[j]) for j in chunk), fn))
+                          % (typ, ";\n".join(texts), fn))
             files.append(("c06cases%s%d" % (kind, i // sh), txt))
             groups.append((kind, chunk))
+    tables = source_tables_coq(ck)
+    if tables is None:
+        return None
+    files.append(("c06tables", tables[0]))
+    groups.append(("t", []))
     res = ck.coq_eval_many(files, timeout=600)
     codes = {}
     sbad = []
     ok = True
     for idx, (rc, out) in enumerate(res):
+        if groups[idx][0] == "t":
+            mk = re.search(r"K\s*=\s*\(\s*(\d+)(?:%\w+)?\s*,\s*(true|false)\s*\)", out)
+            if rc != 0 or not mk or int(mk.group(1)) != tables[1] or mk.group(2) != "true":
+                ck.broken.append("C06 source tables: the automaton of valid_number.go, influx.Field_Type_*, the length limits of util.go or the reserved key "
+                                 "differ from the model's copies (or the comparison did not run): %s" % out[-300:])
+                ok = False
+            else:
+                ck.cov["source_tables_compared"] = tables[1]
+            continue
         m = re.search(r"M\s*=\s*(.*?)\s*:\s*list", out, re.S)
         if rc != 0 or not m:
             ck.broken.append("C06 model evaluation failed on shard %d: %s" % (idx, out[-400:]))
@@ -107,7 +254,13 @@ def eval_model(ck, cases, shard=150):
                              % (len(pairs), m.group(1).count("("), idx, m.group(1)[:300]))
             ok = False
             continue
+        if not any(int(a) == len(chunk) and int(b) != 0 for a, b in pairs):
+            ck.broken.append("C06 model evaluation: the canary (a corrupted copy of a case) of shard %d (%s) was not reported" % (idx, kind))
+            ok = False
+            continue
         for a, b in pairs:
+            if int(a) == len(chunk):
+                continue
             if kind == "s":
                 sbad.append((chunk[int(a)], int(b)))
             else:
@@ -120,6 +273,12 @@ def code_ids(code):
     if code == 999:
         return None
     ids = []
+    if code >= 1000:
+        w, code = divmod(code, 1000)
+        if w & 1:
+            ids.append("C06-time-field-dropped")
+        if w & 2:
+            ids.append("C06-time-tag-dropped")
     if code >= 100:
         ids.append(FEXP)
         code -= 100
@@ -241,7 +400,7 @@ def main(ck):
         phases[name] = round(time.time() - t0, 1)
         t0 = time.time()
     ck.coq_audit(["C06"])
-    ok = ck.coq_build(["C06/Proofs.vo", "C06/ProofsInt.vo", "C06/ProofsDec.vo", "C06/ProofsRender.vo", "C06/ProofsStream.vo", "C06/ProofsFloat.vo", "C06/Corr.vo"])
+    ok = ck.coq_build(["C06/Proofs.vo", "C06/ProofsInt.vo", "C06/ProofsDec.vo", "C06/ProofsRender.vo", "C06/ProofsStream.vo", "C06/ProofsFloat.vo", "C06/ProofsWriter.vo", "C06/Corr.vo"])
     if ok:
         ck.coq_props(["C06/Props.v", "C06/Refuted.v"])
     lap("coq_build_and_props")
